@@ -25,6 +25,12 @@
 //!                    texture): rejected
 //!             w<G>   a further `[[rssl::bind_group(G)]]` written BEFORE the other attributes of the declaration
 //!                    (the later attribute wins)
+//!             A<n>   an ill-formed attribute in front of all others (n = 0..9: no / too many arguments, unknown leaf,
+//!                    unknown namespace, a single name, an argument that is no u32 constant; `BAD_ATTRS`): rejected
+//!             e      the keyword `extern` is written (the default storage class; after `static`/`groupshared`: rejected)
+//!             G      (with s) the static storage is spelled `groupshared`
+//!             q      (with s) this declarator has a `= StaticSampler {..}` initialiser: rejected
+//!             b on a cbuffer: rejected (a block cannot be bindless)
 //!             s      `static` storage (lives in the shader: no slot)
 //!             z      unsized array `name[]` (the allocator ignores unsized arrays; the property excludes them)
 //!             m      two-dimensional array `name[len][2]` (the allocator peels one array layer and ignores it;
@@ -34,7 +40,9 @@
 //!           then `|` and the inline block `location,size` or `-`; binding = `name,(i<index>|n<offset>),(count|*)`
 //!           | `err:none` | `err:unknown:<name>` | `err:bind-group:<n>` | `err:other:<text>` | `panic:<site>`
 //!           | `err:decl:<class>:<name>` the type checker rejects the binding annotation of declarator <name>
-//!             (class = register | register-type-<used>-<expected> | static-sampler-index | register-here | semantic)
+//!             (class = register | register-type-<used>-<expected> | static-sampler-index | register-here | semantic
+//!             | static-sampler-storage | attribute-count | attribute-unknown | attribute-not-constant |
+//!             modifier-conflict; <name> = the identifier the reported location points at)
 //! oracle  : the property's own words on the real metadata of every returned pipeline (independent of the model):
 //!           in each group exactly the bound declarations of the group are reported, their index ranges tile from 0 in
 //!           declaration order (entries are matched by name, not by position in the metadata vector) with the
@@ -77,7 +85,29 @@ pub struct Res {
     pub pre_group: Option<u32>,
     /// the register index is spelled with the register class of another kind
     pub wrong_class: bool,
+    /// an ill-formed attribute (code 0-9, see `BAD_ATTRS`) in front of the other attributes of the declaration
+    pub bad_attr: Option<u32>,
+    /// the keyword `extern` is written (after `static` / `groupshared` if the declaration has one: a conflict)
+    pub extern_kw: bool,
+    /// a static-storage declaration written with `groupshared` instead of `static`
+    pub groupshared: bool,
+    /// a declarator of a static-storage declaration with a `= StaticSampler {..}` initialiser: rejected
+    pub static_ss: bool,
 }
+
+/// ill-formed attributes: (source text, what the type checker names in its message)
+pub const BAD_ATTRS: &[(&str, &str)] = &[
+    ("rssl::bind_group", "bind_group"),
+    ("rssl::bind_group(1, 2)", "bind_group"),
+    ("rssl::bindless(1)", "bindless"),
+    ("rssl::nope", "nope"),
+    ("vk::binding", "binding"),
+    ("vk::binding(1, 2, 3)", "binding"),
+    ("vk::nope", "nope"),
+    ("other::thing", "other"),
+    ("single", "single"),
+    ("rssl::bind_group(-1)", ""),
+];
 
 #[derive(Clone, Copy, Debug, PartialEq)]
 pub enum Ann {
@@ -144,11 +174,15 @@ fn show_res(r: &Res) -> String {
     if !r.joined {
         // declaration-level: a further declarator has what the first one has
         if let Some(g) = r.pre_group { flags.push(format!("w{}", g)); }
+        if let Some(n) = r.bad_attr { flags.push(format!("A{}", n)); }
         if r.bindless { flags.push("b".into()); }
         if r.ns { flags.push("n".into()); }
+        if r.extern_kw { flags.push("e".into()); }
     }
     if r.joined { flags.push("j".into()); }
     if is_static { flags.push("s".into()); }
+    if is_static && r.groupshared { flags.push("G".into()); }
+    if is_static && r.static_ss { flags.push("q".into()); }
     if r.unsized_arr { flags.push("z".into()); }
     if r.dim2 { flags.push("m".into()); }
     format!("{}={}~{}", r.name, decl_text, flags.join("."))
@@ -171,6 +205,10 @@ fn parse_res(s: &str) -> Option<Res> {
         extra: Vec::new(),
         pre_group: None,
         wrong_class: false,
+        bad_attr: None,
+        extern_kw: false,
+        groupshared: false,
+        static_ss: false,
     };
     let on = |t: &str| -> Option<Option<u32>> { if t == "-" { Some(None) } else { t.parse().ok().map(Some) } };
     for f in flags.split('.').filter(|f| !f.is_empty()) {
@@ -185,6 +223,9 @@ fn parse_res(s: &str) -> Option<Res> {
             "j" => r.joined = true,
             "z" => r.unsized_arr = true,
             "k" => r.wrong_class = true,
+            "e" => r.extern_kw = true,
+            "G" => r.groupshared = true,
+            "q" => r.static_ss = true,
             "Y" => r.extra.push(Ann::Semantic),
             "s" => {
                 decl = match decl {
@@ -194,6 +235,7 @@ fn parse_res(s: &str) -> Option<Res> {
             }
             f if f.starts_with('i') => r.lang_index = Some(f[1..].parse().ok()?),
             f if f.starts_with('w') => r.pre_group = Some(f[1..].parse().ok()?),
+            f if f.starts_with('A') => r.bad_attr = Some(f[1..].parse().ok().filter(|n| (*n as usize) < BAD_ATTRS.len())?),
             f if f.starts_with('R') => {
                 let (i, g) = f[1..].split_once('_')?;
                 let (i, g) = (on(i)?, on(g)?);
@@ -242,8 +284,20 @@ pub fn normalise(res: &mut [Res]) {
         let h = head_of(res, i - 1);
         res[i].how = How::Space;
         res[i].pre_group = None;
+        res[i].bad_attr = None;
         res[i].ns = res[h].ns;
         res[i].bindless = res[h].bindless;
+        res[i].extern_kw = res[h].extern_kw;
+        res[i].groupshared = res[h].groupshared;
+    }
+    for r in res.iter_mut() {
+        if !matches!(&r.decl, Decl::StaticObject { .. }) {
+            r.groupshared = false;
+            r.static_ss = false;
+        }
+        if base_of(r).is_none() {
+            r.extern_kw = false;
+        }
     }
 }
 
@@ -393,6 +447,9 @@ pub fn own_anns(r: &Res) -> Vec<(Ann, bool)> {
 
 fn attrs_text(h: &Res) -> String {
     let mut s = String::new();
+    if let Some(n) = h.bad_attr {
+        s.push_str(&format!("[[{}]] ", BAD_ATTRS[n as usize].0));
+    }
     for a in decl_attrs(h) {
         match a {
             AttrText::Bindless => s.push_str("[[rssl::bindless]] "),
@@ -440,7 +497,7 @@ fn init_declarator(r: &Res) -> String {
         _ => return r.name.clone(),
     };
     let mut s = format!("{}{}", declarator(r, len), anns_text(r, reg_class(kind)));
-    if ss {
+    if ss || r.static_ss {
         s.push_str(" = StaticSampler { Filter = MIN_MAG_MIP_LINEAR; }");
     }
     s
@@ -477,7 +534,12 @@ pub fn source(p: &Prog) -> String {
             }
             Decl::Global { kind: Some(k), .. } | Decl::StaticObject { kind: k, .. } => {
                 let is_static = matches!(&r.decl, Decl::StaticObject { .. });
-                line.push_str(&format!("{}{}{} {}", attrs_text(r), if is_static { "static " } else { "" }, spelling(k), init_declarator(r)));
+                let storage = format!(
+                    "{}{}",
+                    if !is_static { "" } else if r.groupshared { "groupshared " } else { "static " },
+                    if r.extern_kw { "extern " } else { "" }
+                );
+                line.push_str(&format!("{}{}{} {}", attrs_text(r), storage, spelling(k), init_declarator(r)));
                 while i + consumed < p.res.len() && p.res[i + consumed].joined {
                     line.push_str(&format!(", {}", init_declarator(&p.res[i + consumed])));
                     consumed += 1;
@@ -668,6 +730,16 @@ fn decl_error(e: &str) -> Option<String> {
         "register-here".to_string()
     } else if msg == "semantic is not allowed here" {
         "semantic".to_string()
+    } else if msg == "static sampler has unexpected storage class" {
+        "static-sampler-storage".to_string()
+    } else if msg.starts_with("unexpected number of arguments to global variable attribute '") {
+        "attribute-count".to_string()
+    } else if msg.starts_with("unknown global variable attribute '") {
+        "attribute-unknown".to_string()
+    } else if msg == "expression could not be evaluated as a constant expression" {
+        "attribute-not-constant".to_string()
+    } else if msg.starts_with("modifier '") && msg.contains("' may not be used with '") {
+        "modifier-conflict".to_string()
     } else {
         return None;
     };
@@ -750,7 +822,8 @@ pub fn explicit_groups(res: &[Res], i: usize) -> Vec<u32> {
 
 /// Does some declarator carry a binding annotation the language rejects? (a semantic; a register on something that
 /// is not a resource; a register class of another kind; two register annotations that differ; a binding index --
-/// its own or the declaration's `vk::binding` -- on a static sampler)
+/// its own or the declaration's `vk::binding` -- on a static sampler; an ill-formed attribute; `bindless` on a
+/// cbuffer; `extern` together with `static`/`groupshared`; a static sampler with static storage)
 pub fn invalid_annotation(res: &[Res]) -> bool {
     (0..res.len()).any(|i| {
         let r = &res[i];
@@ -763,7 +836,10 @@ pub fn invalid_annotation(res: &[Res]) -> bool {
             _ => false,
         };
         let attr_index = decl_attrs(&res[head_of(res, i)]).iter().any(|a| matches!(a, AttrText::VkBinding(..)));
-        anns.iter().any(|(a, wrong)| *a == Ann::Semantic || *wrong)
+        (!r.joined && r.bad_attr.is_some() && !matches!(&r.decl, Decl::Other))
+            || (matches!(&r.decl, Decl::CBuffer(_)) && r.bindless)
+            || (matches!(&r.decl, Decl::StaticObject { .. }) && (r.extern_kw || r.static_ss))
+            || anns.iter().any(|(a, wrong)| *a == Ann::Semantic || *wrong)
             || (!regs.is_empty() && !resource)
             || regs.windows(2).any(|w| w[0] != w[1])
             || (matches!(&r.decl, Decl::Global { ss: true, .. }) && (attr_index || regs.iter().any(|x| x.0.is_some())))
@@ -970,7 +1046,7 @@ const UNSIZED_OK: &[&str] = &["Texture2D", "StructuredBuffer", "RWTexture2D"];
 fn gen_extra(rng: &mut Rng, r: &mut Res) {
     let object = !matches!(&r.decl, Decl::Global { kind: None, .. } | Decl::Other);
     let first = own_anns(r).first().map(|x| x.0);
-    match rng.below(60) {
+    match rng.below(90) {
         // the same register annotation once more: accepted
         0..=3 => {
             if let Some(Ann::Reg(i, g)) = first {
@@ -1045,7 +1121,16 @@ fn gen_joined(rng: &mut Rng, i: usize, h: &Res) -> Option<Res> {
         extra: Vec::new(),
         pre_group: None,
         wrong_class: false,
+        bad_attr: None,
+        extern_kw: false,
+        groupshared: false,
+        static_ss: false,
     };
+    r.extern_kw = h.extern_kw;
+    r.groupshared = h.groupshared;
+    if is_static && sampler && rng.chance(1, 20) {
+        r.static_ss = true;
+    }
     if !ss && !is_static && UNSIZED_OK.contains(&kind) && rng.chance(1, 15) {
         r.decl = Decl::Global { set: own_space, ss: false, kind: Some(kind), len: None };
         r.unsized_arr = true;
@@ -1079,6 +1164,10 @@ fn gen_res(rng: &mut Rng, i: usize, sofar: &[Res]) -> Res {
         extra: Vec::new(),
         pre_group: None,
         wrong_class: false,
+        bad_attr: None,
+        extern_kw: false,
+        groupshared: false,
+        static_ss: false,
     };
     // a further declarator of the previous declaration
     if !sofar.is_empty() && rng.chance(1, 4) {
@@ -1155,6 +1244,20 @@ fn gen_res(rng: &mut Rng, i: usize, sofar: &[Res]) -> Res {
     if !matches!(&r.decl, Decl::Other) && rng.chance(1, 12) {
         r.pre_group = Some(rng.below(5) as u32);
     }
+    // storage class spellings; now and then something the type checker must reject
+    match &r.decl {
+        Decl::Global { kind: Some(_), .. } => r.extern_kw = rng.chance(1, 8),
+        Decl::StaticObject { kind, .. } => {
+            r.groupshared = rng.chance(1, 3);
+            r.extern_kw = rng.chance(1, 60);
+            r.static_ss = *kind == "SamplerState" && rng.chance(1, 20);
+        }
+        Decl::CBuffer(_) => r.bindless = rng.chance(1, 60),
+        _ => {}
+    }
+    if !matches!(&r.decl, Decl::Other) && rng.chance(1, 90) {
+        r.bad_attr = Some(rng.below(BAD_ATTRS.len() as u64) as u32);
+    }
     gen_extra(rng, &mut r);
     r
 }
@@ -1226,6 +1329,10 @@ pub fn matrix_progs(rng: &mut Rng) -> Vec<Prog> {
                 extra: Vec::new(),
                 pre_group: None,
                 wrong_class: false,
+                bad_attr: None,
+                extern_kw: false,
+                groupshared: false,
+                static_ss: false,
             };
             let alen = |rng: &mut Rng| if rng.chance(1, 3) { Some(rng.range(1, 3) as u32) } else { None };
             let mut head = blank("g_a", Decl::Global { set: None, ss: false, kind: Some(kind), len: alen(rng) });
@@ -1300,6 +1407,9 @@ pub fn run_prog(p: &Prog, rng: &mut Rng, out: &mut Out, hist: &mut Hist) {
         });
         if r.joined { hist.add("e2e:flag:joined-declarator"); }
         if r.pre_group.is_some() { hist.add("e2e:flag:two-group-attributes"); }
+        if r.bad_attr.is_some() { hist.add("e2e:flag:ill-formed-attribute"); }
+        if r.extern_kw && !r.joined { hist.add("e2e:flag:extern-keyword"); }
+        if r.groupshared && !r.joined { hist.add("e2e:flag:groupshared"); }
         if r.extra.len() > 0 { hist.add("e2e:flag:repeated-annotation"); }
         if r.ns { hist.add("e2e:flag:namespace"); }
         if r.bindless { hist.add("e2e:flag:bindless"); }
